@@ -71,6 +71,64 @@ class SpoolGen:
     def random(self, rng, n, tier, focus=None):
         return mix_sparse(self._random(rng, n, tier, focus), rng)
 
+    def scale(self, rng, tier):
+        """few LONG histories: thousands of malloc/calloc/free(roll-back)/reset cycles on pools of a few
+        hundred to a few thousand bytes, mixed sizes incl. 0 and exact fit; sparse observation, the region
+        printed as a checksum (`phys=quiet`), `observe` every few hundred operations"""
+        out = []
+        for k in range(4 if tier == "quick" else 24):
+            N = rng.choice([64, 255, 256, 257, 1000, 1024] + ([4100] if tier != "quick" else []))
+            off = rng.choice([0, 1, 3, 8])
+            sim = Sim(N)
+            ops = [f"new size={N} off={off} obs=sparse phys=quiet"]
+            nops = rng.randint(1500, 2500)
+            style = rng.choice(["stack", "fill-reset", "mixed"])
+            for i in range(nops):
+                remaining = N - sim.free
+                r = rng.random()
+                if style == "stack":
+                    # allocate, roll the newest back, allocate again: the roll-back slot over and over
+                    if r < 0.45 or sim.n == 0:
+                        sz = rng.choice([0, 1, 2, 3, 5, 8, 13, remaining, remaining + 1]) if remaining > 0 else rng.choice([0, 1])
+                        ops.append(f"malloc {sz}" if rng.random() < 0.7 else f"calloc 1 {sz}")
+                        sim.alloc(sz)
+                    elif r < 0.9:
+                        ops.append(f"free idx={sim.n - 1}")
+                        ops.append(f"free off={sim.high}")
+                        sim.release_off(sim.high)
+                    else:
+                        ops.append("pool_reset"); sim.reset()
+                elif style == "fill-reset":
+                    if remaining == 0 or r < 0.02:
+                        ops.append("malloc 1"); sim.alloc(1)
+                        ops.append("pool_reset"); sim.reset()
+                    else:
+                        sz = rng.choice([1, 1, 2, 3, 4, 7, 8, 16, remaining])
+                        a = rng.choice([1, 2]) if sz % 2 == 0 else 1
+                        ops.append(f"calloc {a} {sz // a}" if rng.random() < 0.4 else f"malloc {sz}")
+                        sim.alloc(sz)
+                else:
+                    if r < 0.5:
+                        sz = rng.choice([0, 1, 2, 3, 4, 8, 9, 17, remaining, max(remaining - 1, 0), remaining + 1, N + 1])
+                        ops.append(f"malloc {sz}"); sim.alloc(sz)
+                    elif r < 0.6:
+                        sz = rng.choice([2, 4, 6, 8])
+                        ops.append(f"calloc 2 {sz // 2}"); sim.alloc(sz)
+                    elif r < 0.85:
+                        a = rng.choice([sim.high, sim.high, 0, sim.free, rng.randint(0, N)])
+                        ops.append(f"free off={a}"); sim.release_off(a)
+                    elif r < 0.95 and sim.n:
+                        ops.append(f"free idx={rng.randrange(max(sim.n - 3, 0), sim.n)}")
+                        # unknown to the sim whether this was the newest block: resynchronise through the offset
+                        ops.append(f"free off={sim.high}"); sim.release_off(sim.high)
+                    else:
+                        ops.append("pool_reset"); sim.reset()
+                if i % 300 == 299:
+                    ops.append("observe")
+            ops += ["observe", "destroy"]
+            out.append(ops)
+        return out
+
     def _small_scope(self, tier, focus=None):
         out = []
         sizes = (0, 1, 2, 5, 8) if tier == "quick" else tuple(range(0, 41))
